@@ -144,6 +144,9 @@ class Evaluator:
             return True
         if isinstance(e, ast.IfExp):
             return self.expr(e.body) if self.truth(e.test) else self.expr(e.orelse)
+        if isinstance(e, ast.Call) and isinstance(e.func, ast.Name) and e.func.id in ("min", "max") and len(e.args) >= 2 and not e.keywords:
+            vals = [self.expr(a) for a in e.args]  # min / max of comparable values depend on their order type only
+            return min(vals) if e.func.id == "min" else max(vals)
         if isinstance(e, ast.Tuple):
             return tuple(self.expr(x) for x in e.elts)
         raise Unsupported(f"expression outside the comparison fragment: {norm(e)}")
